@@ -109,6 +109,9 @@ def corrupt(ctx, rng, s, prefix, enclen, binp, n):
     judge_corrupt(ctx, s[1:], 'truncated-head', s)
     judge_corrupt(ctx, s + rng.choice(A), 'extended', s)
     judge_corrupt(ctx, s[:len(prefix)] + rng.choice(A) + s[len(prefix):], 'inserted', s)
+    for ws in (' ', '\n', '\t', '\r\n', '  '):
+        judge_corrupt(ctx, s + ws, 'trailing-whitespace', s)
+    judge_corrupt(ctx, ' ' + s, 'leading-whitespace', s)
     judge_corrupt(ctx, s[:-1] + '0', 'bad-alphabet', s)
     judge_corrupt(ctx, s[:-2] + 'Il', 'bad-alphabet', s)
     # swap two adjacent characters
@@ -149,6 +152,9 @@ def helpers(ctx, rng, E):
         s = B.encode_check(pl, binp)
         strings.append((s, prefix))
         strings.append((s[:-1] + ('2' if s[-1] != '2' else '3'), None))
+        # the text of a valid encoding written in hexadecimal is not an encoding
+        strings.append((s.encode().hex(), None))
+        strings.append(('0x' + s.encode().hex().upper(), None))
     for name, prefixes in table:
         fn = getattr(E, name, None)
         if fn is None:
